@@ -41,6 +41,10 @@ func GetBitString(srcBytes []byte, bitsOffset uint, numBits uint) (dstBytes []by
 		err = fmt.Errorf("Get bits overflow, requireBits: %d, leftBits: %d", numBits, bitsLeft)
 		return
 	}
+	if numBits == 0 {
+		dstBytes = []byte{}
+		return
+	}
 	byteLen := (bitsOffset + numBits + 7) >> 3
 	numBitsByteLen := (numBits + 7) >> 3
 	dstBytes = make([]byte, numBitsByteLen)
@@ -446,6 +450,9 @@ func (pd *perBitData) parseInteger(extensed bool, lowerBoundPtr *int64, upperBou
 		}
 	}
 	perTrace(2, fmt.Sprintf("Decoding INTEGER Length with %d bytes", rawLength))
+	if rawLength == 0 {
+		return int64(0), fmt.Errorf("INTEGER with a zero length")
+	}
 
 	if rawValue, err := pd.getBitsValue(rawLength * 8); err != nil {
 		return int64(0), err
